@@ -73,7 +73,7 @@ fn main() {
   w("sm_every_collection_is_rebased_and_metadata_kept", || {
     use identity_core::convert::{FromJson, ToJson};
     use identity_iota_core::IotaDocumentMetadata;
-    let a = did(6); let b = did(7); let foreign = "did:iota:0x".to_owned() + &"ee".repeat(32);
+    let a = did(6); let b = did(7); let foreign = "did:example:foreign".to_owned();
     let m = |did: &str, frag: &str| format!(r#"{{"id":"{did}#{frag}","controller":"{did}","type":"JsonWebKey","publicKeyJwk":{{"kty":"OKP","crv":"Ed25519","x":"11qYAYKxCrfVS_7TyWQHOg7hcvPapiMlrwIaaPcHURo"}}}}"#);
     let rels = ["authentication", "assertionMethod", "keyAgreement", "capabilityDelegation", "capabilityInvocation"];
     let body: Vec<String> = rels.iter().map(|r| format!(r#""{r}":[{},{}]"#, m(a.as_str(), &format!("e-{r}")), m(&foreign, &format!("f-{r}")))).collect();
